@@ -14,6 +14,7 @@ from mcx.common import Report, pmap
 from tradingenv.contracts import ES, FutureChain
 from tradingenv.state import State
 from tradingenv.events import EventNewObservation
+from tradingenv.policy import AbstractPolicy
 from tradingenv.library import FeaturePrices, FeaturePortfolioWeight, FeatureSpread
 
 LEVEL = "exploration"
@@ -121,6 +122,17 @@ def make_env(name, shift=0):
         env = TradingEnv(BoxPortfolio(cs, -1.0, 1.5), state=State(2, window=3, stride=2), transmitter=tr, initial_cash=1000.0)
         actions = [np.array([0.5]), np.array([-0.25])]
         bad = np.array([np.nan])
+    elif name == "defaults":
+        # the convenience entry point: a price table, a plain list of contracts, every other option left at its default
+        # (the default state / reward / fee objects of the signature are then shared by all environments built this way)
+        import pandas as pd
+        G = _days(datetime(2021, 3, 1) + timedelta(days=28 * shift), 6)
+        cs = [ETF("A"), ETF("B")]
+        px = pd.DataFrame({cs[0]: [50.0 + 3 * i + shift for i in range(6)], cs[1]: [80.0 - 2 * i - shift for i in range(6)]}, index=pd.DatetimeIndex(G))
+        env = TradingEnv(cs, prices=px)
+        env.mcx_folds = ("training-set",)
+        actions = [np.array([0.5, 0.25]), np.array([0.25, 0.75])]
+        bad = np.array([9.0, 9.0])
     elif name == "disc":
         G = _days(datetime(2021, 3, 1) + timedelta(days=28 * shift), 6)
         cs = [ETF("A"), ETF("B")]
@@ -184,8 +196,41 @@ def do_call(env, call, actions, bad):
     raise KeyError(call)
 
 
+class FixedPolicy(AbstractPolicy):
+    """Stateless policy: always the same action (so `backtest` must equal reset + a loop of identical steps)."""
+
+    def __init__(self, action):
+        self.action = action
+
+    def act(self, state=None):
+        return np.array(self.action, copy=True) if isinstance(self.action, np.ndarray) else self.action
+
+
+def backtest_pair(env, actions, fold):
+    """(track record of env.backtest(policy), track record of reset + manual loop with the same constant action)."""
+    if fold not in getattr(env, 'mcx_folds', ('training-set', 'f2')):
+        return ("nofold",), ("nofold",)
+    try:
+        env.backtest(fold=fold, policy=FixedPolicy(actions[1]))
+        a = track(env)
+    except Exception as ex:
+        a = ("exc", type(ex).__name__, str(ex)[:80])
+    try:
+        env.reset(fold=fold)
+        k = 0
+        while env._done is False and k < 50:
+            env.step(np.array(actions[1], copy=True) if isinstance(actions[1], np.ndarray) else actions[1])
+            k += 1
+        b = track(env)
+    except Exception as ex:
+        b = ("exc", type(ex).__name__, str(ex)[:80])
+    return a, b
+
+
 def probe_episode(env, actions, bad, fold="training-set"):
     """The probe: a complete episode whose full trace is compared."""
+    if fold not in getattr(env, 'mcx_folds', ('training-set', 'f2')):
+        fold = "training-set"
     out = [do_call(env, ("reset", fold), actions, bad)]
     k = 0
     while env._done is False and k < 50:
@@ -198,6 +243,7 @@ def probe_episode(env, actions, bad, fold="training-set"):
     out.append(tuple((f.name, tuple((str(t), obs_repr(v)) for t, v in f.history.items())) for f in feats))
     if isinstance(env.state, State):
         out.append(tuple((str(t), obs_repr(v)) for t, v in env.state.history.items()))
+    out.append(backtest_pair(env, actions, fold))
     return tuple(out)
 
 
@@ -240,6 +286,11 @@ def _seq_work_inner(unit):
             out["outcomes"].add(hash(got))
             if any(r[0] != "exc" for r in results) and len(hist) > 0:
                 out["nontrivial"] += 1
+            bt, manual = got[-1]
+            if bt != manual:
+                out["violations"].append(({"part": "sequential", "config": name, "history": list(hist), "fold": f},
+                                          "config %s: after call history %s env.backtest(fixed policy) on fold %s records something else than reset + the same steps made by hand: %s"
+                                          % (name, [CALLS[i] for i in hist], f, first_diff(bt, manual)), ("seq-bt", name, len(hist))))
             if got != fresh[f]:
                 diff = first_diff(got, fresh[f])
                 out["violations"].append(({"part": "sequential", "config": name, "history": list(hist), "fold": f},
@@ -266,7 +317,7 @@ def first_diff(a, b):
 
 PAIRS = [("etf2", 0, "etf2", 0), ("etf2", 0, "fees", 1), ("chain", 0, "chain", 1), ("chain", 0, "chain", 0),
          ("chain", 0, "etf2", 0), ("window", 0, "disc", 1), ("chain", 1, "fees", 0),
-         ("fitA", 0, "fitB", 1), ("fitB", 0, "fitA", 0)]
+         ("fitA", 0, "fitB", 1), ("fitB", 0, "fitA", 0), ("defaults", 0, "defaults", 1), ("defaults", 0, "etf2", 1)]
 SCRIPT = [("reset", "training-set"), ("step", 0), ("step", 1), ("step", 0), ("step", 1)]
 
 
@@ -338,7 +389,7 @@ def all_schedules(n):
 def run(tier, **kw):
     rep = Report("C10", tier, LEVEL)
     depth = 3 if tier == "quick" else 5
-    configs = ["etf2", "fees", "chain", "window", "disc", "holey"]
+    configs = ["etf2", "fees", "chain", "window", "disc", "holey", "defaults"]
     hists = [h for d in range(depth + 1) for h in itertools.product(range(len(CALLS)), repeat=d)]
     units = []
     for name in configs:
@@ -377,10 +428,10 @@ def run(tier, **kw):
     rep.set("schedule_distinct_outcomes", len(souts))
     rep.set("schedule_pairs", [list(p) for p in PAIRS])
     rep.set("exhaustive", True)
-    rep.set("rule", "sequential: every call history of length <= depth over 8 calls (reset fold 1/2, step a1/a2, malformed step, run to done, reset with a sampled 3-step / 2-step episode window) for 6 "
+    rep.set("rule", "sequential: every call history of length <= depth over 8 calls (reset fold 1/2, step a1/a2, malformed step, run to done, reset with a sampled 3-step / 2-step episode window) for 7 "
                     "configurations (2 ETFs with library features; the same on a grid with two event-less timesteps; ETF+margined with fees, latency and delay; ES chain across a roll; windowed State; "
-                    "discrete space with delay 2), followed by a probe episode compared bit-for-bit (float.hex / array bytes) with a fresh environment; "
-                    "non-trivial = history with at least one successful call. schedules: ALL C(2n,n) interleavings of two n-call scripts for 9 pairs "
+                    "discrete space with delay 2; a price table + contract list with every option at its default), followed by a probe episode compared bit-for-bit (float.hex / array bytes) with a fresh environment, and env.backtest(constant policy) compared with reset + the same steps by hand; "
+                    "non-trivial = history with at least one successful call. schedules: ALL C(2n,n) interleavings of two n-call scripts for 11 pairs "
                     "of environments (incl. two chain environments at different dates), each compared with its run-alone trace; non-trivial = schedule with >= 2 switches")
     rep.set("samples", [{"part": "sequential", "config": "chain", "history": [0, 2, 4, 1]},
                         {"part": "schedule", "pair": ["chain", 0, "chain", 1], "schedule": [0, 1, 0, 1, 1, 0, 0, 1]}])
